@@ -38,6 +38,7 @@ PROPS["C20"] = {
         {"name": "cpu-exhaustive", "pkg": "./pkg/kubernetes", "run": "^TestVerifC20CPUExhaustive$", "q": 1, "t": 1, "noshard": True},
         {"name": "quota-random", "pkg": "./pkg/kubernetes", "run": "^TestVerifC20Quota$", "q": 20000, "t": 1600000},
         {"name": "memory", "pkg": "./pkg/kubernetes", "run": "^TestVerifC20Memory$", "q": 400, "t": 80000},
+        {"name": "cache", "pkg": "./pkg/resmgr/cache", "run": "^TestVerifC20Cache$", "replay_run": "^TestVerifC20CacheReplay$", "q": 1000, "t": 160000},
     ],
     "floor_q": 100, "floor_t": 1000,
 }
